@@ -34,7 +34,7 @@ func init() {
 			}
 			return 8
 		},
-		Required:    []string{"crashes", "restarts", "durable_before_send_checks", "remembered_after_recovery_checks", "sent_after_restart_same_height", "votes_seen"},
+		Required:    []string{"import_callbacks_delayed", "crashes", "restarts", "durable_before_send_checks", "remembered_after_recovery_checks", "sent_after_restart_same_height", "votes_seen"},
 		Assumptions: []string{"MapDB models a durable synchronous block DB (crashes inside block-DB writes are not simulated)", "crash granularity = WAL operation boundaries with byte-prefix tears", "WAL frame = 8-byte header + payload (checked against the file size at every Sync; a mismatch is reported)"},
 		TimeoutSec:  func(t string) int { if t == ev.Thorough { return 3000 }; return 420 },
 		Run:         run,
@@ -62,6 +62,17 @@ func makePlan(i int, r *rand.Rand, thorough bool) csnet.Options {
 			plan.Crashes = append(plan.Crashes, c01.RandCrash(r, (victim+1)%4, h+1))
 		}
 	} else {
+		if i%4 == 2 {
+			// late import callbacks: the result of a round's block import reaches the engine
+			// after it moved on (rounds are forced by losing round-0 proposals at two heights),
+			// no crash needed: a correct validator must still sign one vote per (height, round, type)
+			plan.ImportCbDelayMs = 2500
+			plan.ImportCbDelayP = 0.6
+			plan.DropP, plan.DelayP, plan.MaxDelayMs, plan.DupP = 0.1, 0.4, 300, 0.05
+			plan.DropRound0At = []int64{int64(1 + r.Intn(2)), 3}
+			opt.Rand = rand.New(rand.NewSource(r.Int63()))
+			return opt
+		}
 		if i%4 == 3 {
 			// directed: the height needs a second round (round-0 proposals are lost), and the
 			// victim dies right after it handed an own vote/proposal of round >= 1 to the
